@@ -207,6 +207,7 @@ type crossNodeOpts struct {
 	Upstream   transmit.Transmission
 	WrapPeerTx func(inner transmit.Transmission) transmit.Transmission // optional recorder
 	WrapPeerH  func(h http.Handler) http.Handler                       // optional recorder around the peer router's handler
+	RouterLog  logger.Logger                                           // optional logger for the two routers (default: NullLogger)
 	BatchDelay time.Duration
 }
 
@@ -254,8 +255,12 @@ func crossStartNode(o crossNodeOpts) (*crossNode, error) {
 		ptx = o.WrapPeerTx(n.PeerTx)
 	}
 	mk := func(t types.RouterType) *route.Router {
+		var rl logger.Logger = lg
+		if o.RouterLog != nil {
+			rl = o.RouterLog
+		}
 		r := &route.Router{
-			Config: n.Cfg, Logger: lg, HTTPTransport: o.Net.Transport(),
+			Config: n.Cfg, Logger: rl, HTTPTransport: o.Net.Transport(),
 			UpstreamTransmission: o.Upstream, PeerTransmission: ptx,
 			Sharder: n.Sharder, Collector: o.Collector, Metrics: met,
 			Tracer: noop.NewTracerProvider().Tracer("verif"),
